@@ -443,4 +443,26 @@ theorem runAll_authorized (s : Server) (c : Nat) (o : ClientOut) (h : (c, o) ∈
     rw [← ho] at hsome
     simp at hsome
 
+
+theorem setCell_updateTick (cl : Cli) (e : Nat) (c0 : Vis.Cell) : (setCell cl e c0).updateTick = cl.updateTick := rfl
+
+/-- `collect_despawns` does not touch the client's update tick -/
+theorem despawnPhase_updateTick (s : Server) (cl : Cli) : (despawnPhase s cl).1.updateTick = cl.updateTick := by
+  unfold despawnPhase
+  simp only
+  have : ∀ (l : List Nat) (acc : Cli × List Nat),
+      (l.foldl (fun (acc : Cli × List Nat) e =>
+        let c0 := cell acc.1 e
+        let ds := if Vis.isVisible s.white c0 then acc.2 ++ [e] else acc.2
+        let cl1 := setCell acc.1 e (Vis.removeDespawned s.white c0)
+        ({ cl1 with mutTick := adel cl1.mutTick e }, ds)) acc).1.updateTick = acc.1.updateTick := by
+    intro l
+    induction l with
+    | nil => intro acc; rfl
+    | cons e es ih =>
+      intro acc
+      rw [List.foldl_cons, ih]
+      rfl
+  exact this _ _
+
 end Replicon.Srv
